@@ -866,3 +866,23 @@ Definition crash_corr_ok (t : scase * crash_obs) : bool :=
   && crash_state_is (fst t) (snd t) (if negb (co_finished (snd t)) && co_committed (snd t) then S a else a).
 
 Definition crash_model (c : scase) := (snap_after c (List.length (sc_steps c)), crash_ddocs_after c (List.length (sc_steps c))).
+
+(* ------------------------------------------------------------------------------------------ *)
+(* C04 on kv histories (one bucket, scripted clocks, drops, purges, reopen): every CAS stamped by the
+   regular API exceeds every CAS stamped before it, across reopen too.  WithMeta writes carry a CAS of
+   the caller's choosing and are not part of the statement.                                       *)
+Definition is_withmeta_step (o : sop) : bool :=
+  match o with SKv _ _ (KSetWithMeta _ _ _ _ _ _) | SKv _ _ (KDeleteWithMeta _ _ _ _) => true | _ => false end.
+
+Fixpoint cas_increasing_walk (maxcas : N) (steps : list (sctx * sop)) (obs : list ostep) : bool :=
+  match steps, obs with
+  | [], _ => true
+  | (_, o) :: ss, ob :: os =>
+      if is_withmeta_step o then cas_increasing_walk maxcas ss os else
+      let cs := map f_cas (os_live ob) in
+      forallb (fun c => maxcas <? c) cs && strictly_increasing cs
+      && cas_increasing_walk (fold_left N.max cs maxcas) ss os
+  | _ :: _, [] => false
+  end.
+
+Definition chk_C04_kv (t : scase * list ostep) : bool := cas_increasing_walk 0 (sc_steps (fst t)) (snd t).
